@@ -204,7 +204,8 @@ Definition TransactionBody (d : nat) := mapS [
 (* witnesses *)
 Definition Vkeywitness := arr [H32; SBytes 64 64].
 Definition Vkeywitnesses := SSetOf Vkeywitness.
-Definition BootstrapWitness := arr [H32; SBytes 64 64; H32; SBytes 0 18446744073709551615].
+(* the chain code is read and written as a byte string of any length (BootstrapWitness::new takes any Vec<u8>) *)
+Definition BootstrapWitness := arr [H32; SBytes 64 64; SBytes 0 18446744073709551615; SBytes 0 18446744073709551615].
 Definition BootstrapWitnesses := SSetOf BootstrapWitness.
 Definition TransactionWitnessSet (d : nat) := mapS [
   (0, OptNE, Vkeywitnesses); (1, OptNE, WsNativeScripts d); (2, OptNE, BootstrapWitnesses);
